@@ -500,4 +500,188 @@ def run (_input implOut : Sexp) : Option Verdict := do
 
 end C07
 
+/-! ## C05 — objective values are never stale -/
+namespace C05
+
+def optSol? : Sexp → Option (Option Nat)
+  | .atom "-" => some none
+  | s => (nat? s).map some
+
+def ApiOp.parse? : Sexp → Option (ApiOp Int)
+  | .list [.atom "new", s, o] => do pure (.new (← nat? s) (← obj? o))
+  | .list [.atom "newu", s] => (nat? s).map .newU
+  | .list [.atom "eval", i] => (nat? i).map .eval
+  | .list [.atom "evalw", i, o] => do pure (.evalW (← nat? i) (← obj? o))
+  | .list [.atom "setobj", i, o] => do pure (.setObj (← nat? i) (← obj? o))
+  | .list [.atom "sol", i] => (nat? i).map .sol
+  | .list [.atom "solmut", i, w] => do pure (.solMut (← nat? i) (← optSol? w))
+  | .list [.atom "intosol", i] => (nat? i).map .intoSol
+  | .list [.atom "clone", i] => (nat? i).map .clone
+  | .list [.atom "iseval", i] => (nat? i).map .isEval
+  | .list [.atom "getobj", i] => (nat? i).map .getObj
+  | .list [.atom "obj", i] => (nat? i).map .objective
+  | .list [.atom "eq", i, j] => do pure (.eq (← nat? i) (← nat? j))
+  | .list [.atom "assols"] => some .asSols
+  | .list (.atom "assolsmut" :: ws) => (ws.mapM optSol?).map .asSolsMut
+  | .list [.atom "intosols"] => some .intoSols
+  | .list (.atom "intoinds" :: ss) => (ss.mapM nat?).map .intoInds
+  | .list [.atom "single"] => some .single
+  | .list [.atom "singleref"] => some .singleRef
+  | .list [.atom "best"] => some .best
+  | _ => none
+
+def ofOut : ApiOut Int → Sexp
+  | .unit => .atom "u"
+  | .skip => .atom "skip"
+  | .panic => .atom "panic"
+  | .bool b => ofBool b
+  | .nat n => .list [.atom "n", ofNat n]
+  | .nats ns => .list (.atom "ns" :: ns.map ofNat)
+  | .obj none => .list [.atom "o", .atom "none"]
+  | .obj (some o) => .list [.atom "o", ofObj o]
+  | .ind none => .list [.atom "i", .atom "none"]
+  | .ind (some i) => .list [.atom "i", ofInd i]
+  | .errEmpty => .list [.atom "e", .atom "empty"]
+  | .errMany n => .list [.atom "e", .atom "many", ofNat n]
+
+/-- Ghost "taint": a member may legitimately carry a value ≠ f(sol) only if a raw writer
+(`new` / `set_objective` / `evaluate_with` with a foreign closure) put it there and it was copied. -/
+def taintStep (f : Nat → Int) (p : List I) (t : List Bool) : ApiOp Int → List Bool
+  | .new s o => t ++ [o != f s]
+  | .newU _ => t ++ [false]
+  | .eval i => t.set i false
+  | .evalW i o => match p[i]? with | some x => t.set i (o != f x.sol) | none => t
+  | .setObj i o => match p[i]? with | some x => t.set i (o != f x.sol) | none => t
+  | .solMut i _ => t.set i false
+  | .intoSol i => if i < p.length then t.eraseIdx i else t
+  | .clone i => match t[i]? with | some b => t ++ [b] | none => t
+  | .asSolsMut _ => t.map fun _ => false
+  | .intoSols => []
+  | .intoInds ss => t ++ ss.map fun _ => false
+  | _ => t
+
+def validB (f : Nat → Int) (i : I) : Bool :=
+  match i.obj with
+  | none => true
+  | some o => o == f i.sol
+
+/-- The property on the implementation's population after one op. -/
+def holdsStep (f : Nat → Int) (op : ApiOp Int) (taint : List Bool) (implPop : List I) : String :=
+  if implPop.length != taint.length then "leak"
+  else if !((implPop.zip taint).all fun (i, t) => t || validB f i) then "stale"
+  else match op with
+    | .solMut i _ => match implPop[i]? with | some x => if x.obj.isNone then "-" else "not-reset" | none => "-"
+    | .asSolsMut _ => if implPop.all (·.obj.isNone) then "-" else "not-reset"
+    | .newU _ => match implPop.getLast? with | some x => if x.obj.isNone then "-" else "not-reset" | none => "leak"
+    | _ => "-"
+
+def walk (f : Nat → Int) : List I → List Bool → List (ApiOp Int) → List Sexp → Option (List Sexp × String)
+  | _, _, [], [] => some ([], "-")
+  | p, t, op :: ops, o :: outs => do
+    let r := apiStep f p op
+    let t' := taintStep f p t op
+    let implPop ← match o with
+      | .list [_, ip] => pop? ip
+      | _ => none
+    let c := holdsStep f op t' implPop
+    let (ms, cs) ← walk f r.1 t' ops outs
+    pure (Sexp.list [ofOut r.2, ofPop r.1] :: ms, if c != "-" then c else cs)
+  | _, _, _, _ => none
+
+def api (input implOut : Sexp) : Option Verdict := do
+  let args ← tagged? "api" input
+  match args, implOut with
+  | [_, .list (.atom "ops" :: os)], .list [ft, .list (.atom "steps" :: outs)] =>
+    let ops ← os.mapM ApiOp.parse?
+    let tab ← ftab? ft
+    let f := fOf tab
+    let (ms, cls) ← walk f [] [] ops outs
+    let model := Sexp.list [ft, .list (.atom "steps" :: ms)]
+    pure { agree := Sexp.beq model implOut, holds := cls == "-", cls, model }
+  | _, _ => none
+
+/-! Run level: audit of every individual reachable from the state after every step, plus the
+evaluated-flag behaviour of every leaf component (Appendix B of DESIGN.md). -/
+
+/-- What a leaf component does to the population stack, as far as C05 is concerned. -/
+inductive Kind where
+  | evalAll      -- height same, same solutions, all evaluated afterwards
+  | unevalTop    -- goes through `as_solutions_mut`: height same, same length, ALL unevaluated (also at rate 0)
+  | keep         -- does not touch the stack
+  | pushNew      -- height + 1, the new top is all unevaluated
+  | copy         -- height + 1, every member of the new top is an exact copy of a member of the old top
+  | newTop       -- height same, the top is replaced by new, unevaluated individuals
+  | merge        -- height − 1, every member of the new top is an exact copy of a member of the two old tops
+  | selfEval     -- height same, same length, all evaluated afterwards (firefly)
+  | any          -- no prediction beyond validity
+  deriving DecidableEq
+
+def kindOf (name : String) : Kind :=
+  if name == "PopulationEvaluator" then .evalAll
+  else if ["Saturation", "Toroidal", "Mirror", "CompleteOneTailedNormalCorrection", "NormalMutation", "UniformMutation",
+           "BitFlipMutation", "PartialRandomSpread", "PartialRandomBitstring", "ScrambleMutation", "SwapMutation",
+           "InversionMutation", "InsertionMutation", "TranslocationMutation", "ParticleVelocitiesUpdate",
+           "BlackHoleParticlesUpdate"].contains name then .unevalTop
+  else if ["BestIndividualUpdate", "ElitistArchiveUpdate", "Logger", "GeometricCooling", "Linear", "Polynomial",
+           "ParticleVelocitiesInit", "PersonalBestParticlesInit", "PersonalBestParticlesUpdate", "GlobalBestParticleUpdate",
+           "ChemicalReactionInit", "AsPheromoneUpdate", "MinMaxPheromoneUpdate", "StepsWithoutImprovementUpdate",
+           "RandomRange", "Noop"].contains name then .keep
+  else if ["RandomSpread", "RandomPermutation", "RandomBitstring"].contains name then .pushNew
+  else if ["All", "Tournament", "FullyRandom", "RandomWithoutRepetition", "RouletteWheel", "StochasticUniversalSampling",
+           "LinearRank", "ExponentialRank", "CloneSingle", "DeterministicFitnessProportional", "DERand", "DEBest",
+           "DECurrentToBest"].contains name then .copy
+  else if ["NPointCrossover", "UniformCrossover", "ArithmeticCrossover", "CycleCrossover", "AcoGeneration", "DEMutation",
+           "DEBinomialCrossover", "DEExponentialCrossover"].contains name then .newTop
+  else if ["MuPlusLambda", "Generational", "Merge", "KeepBetterAtIndex", "DiscardOffspring", "RandomReplacement",
+           "ExponentialAnnealingAcceptance"].contains name then .merge
+  else if name == "FireflyPositionsUpdate" then .selfEval
+  else .any
+
+/-- One observed leaf transition: name, height delta (as `p`/`m` + magnitude), flags of the top before
+and after, same solutions position-wise, every new member an exact copy of a member of the old top /
+of the old two tops. -/
+structure Leaf where
+  name : String
+  dh : Int
+  before : List Bool
+  after : List Bool
+  sameSols : Bool
+  subTop : Bool
+  subTop2 : Bool
+
+def Leaf.parse? : Sexp → Option Leaf
+  | .list [.atom name, dh, .list bs, .list as, ss, s1, s2] => do
+    let dh ← int? dh
+    let bs ← bs.mapM bool?
+    let as ← as.mapM bool?
+    pure ⟨name, dh, bs, as, ← bool? ss, ← bool? s1, ← bool? s2⟩
+  | _ => none
+
+/-- Does the observed transition match the model of the component? -/
+def Leaf.ok (l : Leaf) : Bool :=
+  match kindOf l.name with
+  | .evalAll => l.dh == 0 && l.sameSols && l.after.all id && l.after.length == l.before.length
+  | .unevalTop => l.dh == 0 && l.after.length == l.before.length && l.after.all (!·)
+  | .keep => l.dh == 0 && l.sameSols && l.after == l.before
+  | .pushNew => l.dh == 1 && l.after.all (!·)
+  | .copy => l.dh == 1 && l.subTop
+  | .newTop => l.dh == 0 && l.after.all (!·)
+  | .merge => l.dh == -1 && l.subTop2
+  | .selfEval => l.dh == 0 && l.after.length == l.before.length && l.after.all id
+  | .any => true
+
+def run (_input implOut : Sexp) : Option Verdict := do
+  match implOut with
+  | .list [.list [.atom "out", _], .list [.atom "steps", _], .list [.atom "checked", _], .list [.atom "evaluated", _],
+           .list [.atom "stale", st], .list (.atom "leaves" :: ls)] =>
+    let ls ← ls.mapM Leaf.parse?
+    let leavesOk := ls.all Leaf.ok
+    let noStale := match st with | .atom "none" => true | _ => false
+    let model := Sexp.list [.list [.atom "stale", .atom "none"],
+                            .list (.atom "mismatch" :: (ls.filter (!·.ok)).map fun l => .atom l.name)]
+    pure { agree := noStale && leavesOk, holds := noStale, cls := if noStale then "-" else "stale", model }
+  | _ => none
+
+end C05
+
 end MahfModel.PopMachine.Wire
